@@ -275,11 +275,20 @@ func mutate(r *rand.Rand, m protoreflect.Message, f protoreflect.FieldDescriptor
 	bmut := func(b []byte) ([]byte, error) {
 		n := append([]byte{}, b...)
 		switch mut {
-		case "flip":
+		case "flip": // a bit of any byte but the first (flip0 owns the first byte: format / version prefixes)
 			if len(n) == 0 {
 				return nil, fmt.Errorf("flip of empty value")
 			}
-			n[r.Intn(len(n))] ^= 1 << uint(r.Intn(8))
+			i := 0
+			if len(n) > 1 {
+				i = 1 + r.Intn(len(n)-1)
+			}
+			n[i] ^= 1 << uint(r.Intn(8))
+		case "flip0":
+			if len(n) == 0 {
+				return nil, fmt.Errorf("flip0 of empty value")
+			}
+			n[0] ^= 1 << uint(r.Intn(8))
 		case "zero":
 			n = nil
 		case "ext1":
@@ -299,7 +308,9 @@ func mutate(r *rand.Rand, m protoreflect.Message, f protoreflect.FieldDescriptor
 	imut := func(v int64, bits uint) (int64, error) {
 		switch mut {
 		case "flip":
-			return v ^ (1 << uint(r.Intn(int(bits)-2))), nil
+			return v ^ (1 << uint(1+r.Intn(int(bits)-3))), nil
+		case "flip0":
+			return v ^ 1, nil
 		case "zero":
 			return 0, nil
 		case "ext1":
@@ -325,8 +336,11 @@ func mutate(r *rand.Rand, m protoreflect.Message, f protoreflect.FieldDescriptor
 	case protoreflect.StringKind:
 		s := []byte(m.Get(f).String())
 		switch mut {
-		case "flip": // stay inside valid UTF-8: another ASCII letter
-			i := r.Intn(len(s))
+		case "flip", "flip0": // stay inside valid UTF-8: another ASCII letter
+			i := 0
+			if mut == "flip" && len(s) > 1 {
+				i = 1 + r.Intn(len(s)-1)
+			}
 			c := byte('a' + r.Intn(26))
 			if c == s[i] {
 				c = 'Z'
